@@ -48,7 +48,7 @@ type stats struct {
 	Files, Funcs, Loops, Ticks    int
 	GoStmts, Sends, Recvs, Closes int
 	AccField, AccGlobal, AccMap   int
-	AccDeref                      int
+	AccDeref, AccElem             int
 	Opaque                        int
 	OpaqueSites                   []string
 	GlobalMutexes                 []string
@@ -131,11 +131,12 @@ func main() {
 }
 
 type ctx struct {
-	pkg   *packages.Package
-	fset  *token.FileSet
-	info  *types.Info
-	file  *ast.File
-	fname string
+	pkg      *packages.Package
+	fset     *token.FileSet
+	info     *types.Info
+	file     *ast.File
+	fname    string
+	captured map[*types.Var]bool // local variables referenced from a function literal (shared between goroutines when the literal is started with go)
 }
 
 func instrumentPackage(p *packages.Package, overlay map[string]string) {
@@ -228,8 +229,36 @@ func (c *ctx) site(pos token.Pos) string {
 	return fmt.Sprintf("%s:%d", filepath.Base(p.Filename), p.Line)
 }
 
+// findCaptured marks the local variables that a function literal uses from an enclosing function.
+func (c *ctx) findCaptured() {
+	c.captured = map[*types.Var]bool{}
+	ast.Inspect(c.file, func(n ast.Node) bool {
+		lit, ok := n.(*ast.FuncLit)
+		if !ok {
+			return true
+		}
+		ast.Inspect(lit.Body, func(m ast.Node) bool {
+			id, ok := m.(*ast.Ident)
+			if !ok {
+				return true
+			}
+			v, ok := c.info.Uses[id].(*types.Var)
+			if !ok || v.IsField() || v.Pkg() == nil || v.Parent() == v.Pkg().Scope() {
+				return true
+			}
+			// declared outside the literal?
+			if v.Pos() < lit.Pos() || v.Pos() > lit.End() {
+				c.captured[v] = true
+			}
+			return true
+		})
+		return true
+	})
+}
+
 func (c *ctx) rewriteFile() {
 	f := c.file
+	c.findCaptured()
 	// imports
 	for _, imp := range f.Imports {
 		path, _ := strconv.Unquote(imp.Path.Value)
@@ -758,6 +787,24 @@ func (l *logger) pure(e ast.Expr) bool {
 	return false
 }
 
+// pureIndex: an index expression that can be evaluated twice (identifiers, literals and arithmetic on them)
+func (l *logger) pureIndex(e ast.Expr) bool {
+	switch n := e.(type) {
+	case *ast.Ident, *ast.BasicLit:
+		return true
+	case *ast.ParenExpr:
+		return l.pureIndex(n.X)
+	case *ast.BinaryExpr:
+		switch n.Op {
+		case token.ADD, token.SUB, token.MUL:
+			return l.pureIndex(n.X) && l.pureIndex(n.Y)
+		}
+	case *ast.SelectorExpr:
+		return l.pure(n)
+	}
+	return false
+}
+
 func (l *logger) mapAccess(m ast.Expr, write bool) {
 	if *noLog {
 		return
@@ -778,7 +825,7 @@ func (l *logger) expr(e ast.Expr, write bool) {
 	info := l.c.info
 	switch n := e.(type) {
 	case *ast.Ident:
-		if v, ok := info.Uses[n].(*types.Var); ok && !v.IsField() && v.Pkg() != nil && v.Parent() == v.Pkg().Scope() {
+		if v, ok := info.Uses[n].(*types.Var); ok && !v.IsField() && v.Pkg() != nil && (v.Parent() == v.Pkg().Scope() || l.c.captured[v]) {
 			if !isSyncType(v.Type()) {
 				l.recs = append(l.recs, rec{"global", n, write})
 			}
@@ -814,8 +861,19 @@ func (l *logger) expr(e ast.Expr, write bool) {
 		}
 		t := info.TypeOf(n.X)
 		if t != nil {
-			if _, isMap := t.Underlying().(*types.Map); isMap {
+			switch u := t.Underlying().(type) {
+			case *types.Map:
 				l.mapAccess(n.X, write)
+			case *types.Slice:
+				// element access (string elements are immutable and not addressable)
+				if l.pure(n.X) && l.pureIndex(n.Index) {
+					l.recs = append(l.recs, rec{"elem", n, write})
+				}
+				_ = u
+			case *types.Pointer:
+				if _, isArr := u.Elem().Underlying().(*types.Array); isArr && l.pure(n.X) && l.pureIndex(n.Index) {
+					l.recs = append(l.recs, rec{"elem", n, write})
+				}
 			}
 		}
 		l.expr(n.X, false)
@@ -989,6 +1047,9 @@ func (l *logger) emit(pos token.Pos) []ast.Stmt {
 		case "field":
 			st.AccField++
 			out = append(out, &ast.ExprStmt{X: call(sel("_vrt", "Acc"), call(sel("_vunsafe", "Pointer"), &ast.UnaryExpr{Op: token.AND, X: r.expr}), w, label)})
+		case "elem":
+			st.AccElem++
+			out = append(out, &ast.ExprStmt{X: call(sel("_vrt", "AccElem"), r.expr.(*ast.IndexExpr).X, r.expr.(*ast.IndexExpr).Index, w, label)})
 		case "global":
 			st.AccGlobal++
 			out = append(out, &ast.ExprStmt{X: call(sel("_vrt", "Acc"), call(sel("_vunsafe", "Pointer"), &ast.UnaryExpr{Op: token.AND, X: r.expr}), w, label)})
